@@ -312,6 +312,18 @@ CHECKS.update({
     ),
 })
 
+CHECKS.update({
+    "C12": (
+        "generated forms built under generated histories of the global counters and in worker processes with different PYTHONHASHSEED; oracle = all signatures of one recipe are identical",
+        "Hypothesis-generated forms (up to three meshes, twins of like-typed terminals in commutative positions, variables, "
+        "index contractions, generated terms) are each built under four histories that advance the Index / Coefficient / "
+        "Constant / Label / Mesh-id counters to both sides of 9|10, 99|100, 999|1000, and in three worker processes started "
+        "with different hash seeds: every signature must be the same.",
+        "Advancing a counter directly stands for creating that many objects; creation order is identical in every build.",
+        "4/C12",
+    ),
+})
+
 NOT_YET = {}
 
 
